@@ -217,6 +217,21 @@ func (c *cursorManager) getCursorKey(cursorID, streamName string, partitionID in
 func (c *cursorManager) getLatestCursorOffset(ctx context.Context, cursorKey []byte, partition *partition) (
 	int64, error) {
 
+	// Cursors are published with AckPolicy_ALL, so every cursor that has been
+	// acknowledged is in the leader's log. However, a server that has just
+	// become the leader can have a HW which is behind the end of its log
+	// because followers learn the HW one fetch late. Wait for what is in the
+	// log to be committed so we don't return (and cache) a stale cursor.
+	ctx, cancelTimeout := ensureTimeout(ctx, defaultCursorTimeout)
+	defer cancelTimeout()
+	for !partition.IsPaused() && partition.log.HighWatermark() < partition.log.NewestOffset() {
+		select {
+		case <-ctx.Done():
+			return 0, ctx.Err()
+		case <-time.After(time.Millisecond):
+		}
+	}
+
 	hw := partition.log.HighWatermark()
 	oldest := partition.log.OldestOffset()
 
